@@ -213,6 +213,21 @@ impl Constants {
     }
 }
 
+/// Is this the location at which execution of the function begins?
+fn is_function_entry(location: &il::RefProgramLocation) -> bool {
+    let entry = location.function().control_flow_graph().entry();
+    match location.block() {
+        Some(block) if entry == Some(block.index()) => match location.instruction() {
+            Some(instruction) => block
+                .instructions()
+                .first()
+                .map_or(false, |first| first.index() == instruction.index()),
+            None => location.edge().is_none(),
+        },
+        _ => false,
+    }
+}
+
 // We require a struct to implement methods for our analysis over.
 struct ConstantsAnalysis {}
 
@@ -223,7 +238,16 @@ impl<'r> fixed_point::FixedPointAnalysis<'r, Constants> for ConstantsAnalysis {
         state: Option<Constants>,
     ) -> Result<Constants, Error> {
         let mut state = match state {
-            Some(state) => state,
+            Some(mut state) => {
+                // The entry of the function is also reached from outside the
+                // function, where nothing has been assigned yet. What its
+                // predecessors inside the function know does not hold on that
+                // path.
+                if is_function_entry(&location) {
+                    state.top();
+                }
+                state
+            }
             None => Constants::new(),
         };
 
